@@ -104,11 +104,15 @@ fn collection(inner: VS) -> VS {
 
 fn key_expr(keys: &[&'static str]) -> VS {
     let keys: Vec<&'static str> = keys.to_vec();
+    let keys2 = keys.clone();
     prop_oneof![
         8 => select(keys.clone()).prop_map(|k| j(k)),
         2 => (select(keys.clone()), select(keys)).prop_map(|(a, b)| j(format!("{}.{}", a, b))),
         2 => (-3i64..4).prop_map(j),
         1 => Just(Value::Null),
+        // odd spellings: the result is not determined (zone U2) but evaluation must still terminate
+        1 => (select(keys2.clone()), select(vec!["\\", ".", "\\\\\\", "..", ".\\"])).prop_map(|(a, t)| j(format!("{}{}", a, t))),
+        1 => (select(keys2.clone()), select(keys2)).prop_map(|(a, b)| j(format!("{}.{}\\", a, b))),
     ]
     .boxed()
 }
